@@ -111,7 +111,7 @@ def gen_cases(tier, seed):
             second = {"spec": spec2, "gitignore": gi2 if r.random() < 0.7 else None}
         yield {"second": second, "spec": spec, "gitignore": gi, "forms": forms, "driver": driver, "use": r.random() < 0.85, "fs": "ext4",
                "extra": r.choice([[], [], [], ["--fsync"], ["--no-perms"], ["--no-progress"], ["--reflink", "never"], ["--backup", "auto"]]),
-               "srcarg": r.choice(["src", "src", "src/", "./src", "@ROOT@/src"])}
+               "srcarg": r.choice(["src", "src", "src/", "./src", "@ROOT@/src"]), "w": r.choice([0, 1, 2, 4])}
 
 
 def git_ignored(sb, srcdir, relpaths):
@@ -159,7 +159,7 @@ def run_case(case):
         two = len(sources) > 1
         if two:
             os.mkdir(os.path.join(b(root), b"dst"))
-        args = ["--driver", case["driver"], "-w", "2", "-r"] + (["--gitignore"] if case["use"] else []) + case.get("extra", [])
+        args = ["--driver", case["driver"], "-w", str(case.get("w", 2)), "-r"] + (["--gitignore"] if case["use"] else []) + case.get("extra", [])
         args += [case.get("srcarg", "src")] + (["src2"] if two else []) + ["dst"]
         args = [a.replace("@ROOT@", root) for a in args]
         run = core.run_plain(core.xcp_argv(args), root)
